@@ -174,7 +174,7 @@ def run(chk, replay=None):
             rc.dec_msg(pk, b); legal = (b[3] & 0xF8) == 0 and 1 <= (b[3] & 7) <= 4 if pk == "binary" else 1 <= (b[1] >> 5) <= 4
         except rc.DecodeError:
             legal = False
-        if o.startswith("panic") or o.startswith("CRASH"):
+        if o.startswith("panic") or o.startswith("CRASH") or o.startswith("HANG"):
             fail("message header reader panicked", dict(kind="case", case=line))
 
     # ---------- C. application exception ----------
@@ -234,7 +234,7 @@ def run(chk, replay=None):
                 # an EMPTY list announcing element type 0: nothing is ever consumed under that type; accepted
                 # (reading decision, DESIGN.md 6: a non-spec code must fail no later than the attempt to consume a value of it)
                 bump("empty_container_of_stop_tolerated"); continue
-        if o.startswith("panic") or o.startswith("CRASH"):
+        if o.startswith("panic") or o.startswith("CRASH") or o.startswith("HANG"):
             fail("reader panicked on a type code", dict(kind="case", case=line))
         elif not legal and o.startswith("ok"):
             # a stop nibble with a delta is tolerated by pilota as a stop; the specification does not define it.
